@@ -13,15 +13,21 @@ DRIVER_DEPS = ["EzdxfVerif.Model.Curve", "EzdxfVerif.Gen.CurveKernels", "Drivers
 REL_TOL = 1e-9  # float result vs exact rational referee: |impl - exact| <= REL_TOL * max(1, |exact|, scale)
 RULE = (
     "correspondence (Lean model over exact Rat vs real code, BOTH twins ezdxf.math._bspline/_bezier4p/_bezier3p and "
-    "ezdxf.acc.*): X1 find_span exact integers (clamped, unclamped, non uniform knots, u on knots, below/above the "
-    "domain); X2 basis_funcs/point incl. rational weights and the ZeroDivisionError class, floats compared with the "
-    f"model's exact rationals within rel. tolerance {REL_TOL}; X3 Bezier4P/Bezier3P point/tangent/reverse/transform via "
-    "kernels translated from the current .py and .pyx source; X4 insert_knot/reverse knots; X5 bulge_center/radius "
-    "closed form vs the trigonometric code. Non-trivial = the case reaches a non-default branch (interior span, "
-    "repeated knot, weights, error). oracle (real code only, referee = independent Cox-de Boor / de Casteljau in "
-    "Fractions): points and derivatives for degrees 1..7, curve sampled before/after insert_knot, knot_refinement, "
-    "transform, reverse, degree_elevation, bezier_decomposition, split; interpolation hits fit points and end "
-    "tangents; rational arcs/ellipses lie on the conic; bulge/arc and angle/param round trips."
+    "ezdxf.acc.*, imported directly): X1 find_span, exact integers, on every knot vector as generated, shifted so that "
+    "knots[p]==0 (binary search branch) and shifted by +1 (linear search branch), u on every knot, between knots, below and "
+    "above the domain; X2 basis_funcs for the found span and for arbitrary spans (empty span = ZeroDivisionError class) and "
+    f"Evaluator.point incl. rational weights, floats compared with the model's exact rationals within rel. tolerance {REL_TOL} "
+    "(excluded and counted: rational cases outside the span whose exact weight sum is 0, the decision band of `s == 0.0`); "
+    "X2 reference: the Lean Cox-de Boor sum = the harness referee, exactly; X3 Bezier4P/Bezier3P point/tangent/reverse/"
+    "transform against the kernels translated from the current .py and .pyx source; X4 insert_knot (result and error "
+    "class) and reverse knots; X5 bulge_center/radius/apex closed form vs the trigonometric code. Non-trivial = the "
+    "parameter lies inside the knot range / 0<t<1 / an operation was applied; distinct by hash of (stream, request, twin). "
+    "oracle (real code only, referee = independent Cox-de Boor pieces / de Casteljau in Fractions): O1 points and derivatives "
+    "up to order 3 for degrees 1..7, clamped/unclamped/non-uniform knots, rational weights, every knot of the domain and "
+    "both ends; O2 curve sampled before/after insert_knot, knot_refinement, transform (any knot vector), reverse, "
+    "degree_elevation, split (also at an existing knot), bezier_decomposition (clamped); O3 interpolation hits fit points "
+    "and end tangents (pairwise distinct fit points, degree >= 2); O4 rational arcs/ellipses lie on the conic; O5 bulge/arc, "
+    "angle/param, Rytz round trips; O6 Bezier curves vs Bernstein form and hodograph."
 )
 TRUSTED_BASE = [
     "Vec3/Vec2/Matrix44 arithmetic is component-wise as modelled by V3/Affine (property C10/C11; here validated by correspondence)",
@@ -35,7 +41,7 @@ ASSUMPTIONS = [
     "parameters are passed exactly (dyadic or small rationals rounded once to double)",
 ]
 OPEN = [
-    "findSpan_spec_partial / evalPoint_total_partial: the domain end needs knots[count-1] < knots[count] (false without it: F13 counterexample theorem)",
+    "findSpan_spec / evalPoint_total / evalPoint_domain_end / bspline_affine need a non-degenerate domain knots[p] < knots[count] (necessary: a single-point domain has no non-empty span)",
     "insert_knot_preserves (Boehm), knot refinement, degree elevation, Bezier decomposition, split, reverse of B-splines: not proved, oracle on the real code only",
     "basis_funcs_derivatives (A2.3) and the rational derivative (A4.2): not modelled, oracle vs exact derivative only",
     "interpolation solvers, conic -> NURBS constructions, ellipse/arc angle<->parameter conversions: oracle only",
@@ -300,7 +306,7 @@ def translate_kernels(ctx) -> str:
         text = "\n".join(ast.unparse(b) for b in body)
         for i, q in enumerate(qs):
             for k, c in enumerate("xyz"):
-                ok = re.search(rf"self\.p{i + 1}\[{k}\] = p{i + 1}\.{c} - (x|y|z|p0\.{c})\b", text)
+                ok = re.search(rf"self\.p{i + 1}\[{k}\] = p{i + 1}\.{c} - ({c}|p0\.{c})\b", text)
                 if not ok:
                     raise Untranslatable(f"{cls}.__cinit__: stored point p{i + 1}[{k}] is not p{i + 1}.{c} - p0.{c}")
     # --- bulge radius kernel
@@ -367,3 +373,1190 @@ def binomialPy : List (List Nat) := [{", ".join("[" + ", ".join(map(str, r)) + "
 end EzdxfVerif.Gen.CurveKernels
 """
     ctx.write_gen("CurveKernels", text, SRC_FILES)
+
+
+# ====================================================================== protocol helpers
+def rs(x) -> str:
+    x = Fr(x)
+    return str(x.numerator) if x.denominator == 1 else f"{x.numerator}/{x.denominator}"
+
+
+def rlist(xs) -> str:
+    return ",".join(rs(x) for x in xs)
+
+
+def vs(p) -> str:
+    return ":".join(rs(c) for c in p)
+
+
+def vlist(ps) -> str:
+    return ",".join(vs(p) for p in ps)
+
+
+def parse_r(s: str) -> Fr:
+    return Fr(s)
+
+
+def parse_v(s: str):
+    return tuple(Fr(c) for c in s.split(":"))
+
+
+def close(impl: float, exact: Fr, scale=1.0) -> bool:
+    if not math.isfinite(impl):
+        return False
+    e = float(exact)
+    return abs(impl - e) <= REL_TOL * max(1.0, abs(e), scale)
+
+
+def vclose(v, exact, scale=1.0) -> bool:
+    return all(close(float(a), b, scale) for a, b in zip((v[0], v[1], v[2] if len(v) > 2 else 0.0), exact))
+
+
+def err_name(e: BaseException) -> str:
+    return "err " + type(e).__name__
+
+
+class Impl:
+    """the two twins, imported directly (not through ezdxf.math) so that both are exercised"""
+
+    def __init__(self, name):
+        self.name = name
+        if name == "py":
+            from ezdxf.math import _bspline, _bezier4p, _bezier3p, _vector, _matrix44
+
+            self.Basis, self.Evaluator = _bspline.Basis, _bspline.Evaluator
+            self.Bezier4P, self.Bezier3P = _bezier4p.Bezier4P, _bezier3p.Bezier3P
+            self.Vec3, self.Vec2, self.Matrix44 = _vector.Vec3, _vector.Vec2, _matrix44.Matrix44
+        else:
+            from ezdxf.acc import bspline, bezier4p, bezier3p, vector, matrix44
+
+            self.Basis, self.Evaluator = bspline.Basis, bspline.Evaluator
+            self.Bezier4P, self.Bezier3P = bezier4p.Bezier4P, bezier3p.Bezier3P
+            self.Vec3, self.Vec2, self.Matrix44 = vector.Vec3, vector.Vec2, matrix44.Matrix44
+
+    def v3(self, p):
+        return self.Vec3(float(p[0]), float(p[1]), float(p[2]))
+
+    def basis(self, knots, order, count, weights=None):
+        return self.Basis([float(k) for k in knots], order, count, [float(w) for w in weights] if weights else None)
+
+    def evaluator(self, knots, order, cps, weights=None):
+        return self.Evaluator(self.basis(knots, order, len(cps), weights), [self.v3(p) for p in cps])
+
+
+_IMPLS = None
+
+
+def impls(ctx=None):
+    global _IMPLS
+    if _IMPLS is None:
+        out = [Impl("py")]
+        try:
+            out.append(Impl("pyx"))
+        except ImportError as e:
+            if ctx:
+                ctx.note(f"C-extensions not importable ({e}); only the pure Python twin is exercised")
+        _IMPLS = out
+    return _IMPLS
+
+
+class use_twin:
+    """run BSpline level code of ezdxf.math.bspline on a chosen Basis/Evaluator twin"""
+
+    def __init__(self, impl: Impl):
+        self.impl = impl
+
+    def __enter__(self):
+        import ezdxf.math.bspline as B
+
+        self.B, self.saved = B, (B.Basis, B.Evaluator)
+        B.Basis, B.Evaluator = self.impl.Basis, self.impl.Evaluator
+
+    def __exit__(self, *a):
+        self.B.Basis, self.B.Evaluator = self.saved
+
+
+# ====================================================================== exact referee (Fractions)
+def padd(a, b):
+    n = max(len(a), len(b))
+    return [(a[i] if i < len(a) else 0) + (b[i] if i < len(b) else 0) for i in range(n)]
+
+
+def pmul(a, b):
+    if not a or not b:
+        return []
+    out = [Fr(0)] * (len(a) + len(b) - 1)
+    for i, x in enumerate(a):
+        for j, y in enumerate(b):
+            out[i + j] += x * y
+    return out
+
+
+def pscale(a, s):
+    return [x * s for x in a]
+
+
+def peval(a, u):
+    r = Fr(0)
+    for c in reversed(a):
+        r = r * u + c
+    return r
+
+
+def pderiv(a):
+    return [a[i] * i for i in range(1, len(a))]
+
+
+def piece_polys(U, p, s):
+    """textbook Cox-de Boor recursion restricted to the knot span s: {i: polynomial of N_{i,p} on span s}"""
+    level = {s: [Fr(1)]}
+    for q in range(p):
+        nxt = {}
+        for i in range(s - q - 1, s + 1):
+            acc = []
+            if i in level and i >= 0:
+                d = U[i + q + 1] - U[i]
+                if d != 0:
+                    acc = padd(acc, pmul([-U[i] / d, Fr(1) / d], level[i]))
+            if i + 1 in level:
+                d = U[i + q + 2] - U[i + 1]
+                if d != 0:
+                    acc = padd(acc, pmul([U[i + q + 2] / d, Fr(-1) / d], level[i + 1]))
+            nxt[i] = acc
+        level = nxt
+    return level
+
+
+def ref_span(U, p, count, u):
+    """knot span of the textbook definition; at the domain end the last non-empty span (left limit)"""
+    if u >= U[count]:
+        s = count - 1
+        while s > p and U[s] >= U[count]:
+            s -= 1
+        return s
+    s = p
+    for i in range(p, count):
+        if U[i] <= u:
+            s = i
+    while s < count - 1 and U[s] == U[s + 1]:  # u (1 ulp) below a repeated domain start: first non-empty span
+        s += 1
+    return s
+
+
+class RefCurve:
+    """exact (rational) B-spline: point and derivatives of the polynomial piece that contains u"""
+
+    def __init__(self, knots, order, cps, weights=None):
+        self.U = [Fr(k) for k in knots]
+        self.p = order - 1
+        self.cps = [tuple(Fr(c) for c in pt) for pt in cps]
+        self.w = [Fr(w) for w in weights] if weights else None
+        self.count = len(self.cps)
+        self._cache = {}
+
+    def domain(self):
+        return self.U[self.p], self.U[self.count]
+
+    def piece(self, s):
+        if s not in self._cache:
+            polys = piece_polys(self.U, self.p, s)
+            A = [[], [], []]
+            W = []
+            for i, poly in polys.items():
+                if i < 0 or i >= self.count:
+                    continue
+                w = self.w[i] if self.w else Fr(1)
+                for k in range(3):
+                    A[k] = padd(A[k], pscale(poly, w * self.cps[i][k]))
+                W = padd(W, pscale(poly, w))
+            self._cache[s] = (A, W)
+        return self._cache[s]
+
+    def derivatives(self, u, n, span=None):
+        u = Fr(u)
+        s = ref_span(self.U, self.p, self.count, u) if span is None else span
+        A, W = self.piece(s)
+        Ad = [list(a) for a in A]
+        Wd = list(W)
+        Aders, Wders = [], []
+        for _ in range(n + 1):
+            Aders.append(tuple(peval(a, u) for a in Ad))
+            Wders.append(peval(Wd, u))
+            Ad = [pderiv(a) for a in Ad]
+            Wd = pderiv(Wd)
+        CK = []
+        for k in range(n + 1):
+            v = list(Aders[k])
+            for i in range(1, k + 1):
+                c = math.comb(k, i) * Wders[i]
+                v = [a - c * b for a, b in zip(v, CK[k - i])]
+            CK.append(tuple(a / Wders[0] for a in v))
+        return CK
+
+    def point(self, u, span=None):
+        return self.derivatives(u, 0, span)[0]
+
+
+def bernstein_point(pts, t):
+    """de Casteljau in Fractions"""
+    pts = [tuple(Fr(c) for c in p) for p in pts]
+    t = Fr(t)
+    while len(pts) > 1:
+        pts = [tuple(a * (1 - t) + b * t for a, b in zip(p, q)) for p, q in zip(pts, pts[1:])]
+    return pts[0]
+
+
+# ====================================================================== generators
+DY = [Fr(k, 4) for k in range(-32, 33)]
+
+
+def gen_point(rng, flat=False, big=False):
+    off = rng.choice([0, 0, 0, 1000, -250000]) if big else 0
+    return (rng.choice(DY) + off, rng.choice(DY) + off, Fr(0) if flat else rng.choice(DY))
+
+
+def gen_weights(rng, n):
+    return [rng.choice([Fr(1), Fr(1), Fr(1, 2), Fr(2), Fr(3), Fr(1, 3), Fr(3, 4), Fr(5, 2)]) for _ in range(n)]
+
+
+KINDS = ["clamped-uniform", "clamped", "uniform", "unclamped", "unclamped"]
+
+
+def gen_knots(rng, p, n, kind):
+    """n control points, degree p: n + p + 1 nondecreasing knots starting at 0; interior multiplicity <= p"""
+    m = n + p + 1
+    if kind == "clamped-uniform":
+        return [Fr(0)] * (p + 1) + [Fr(i) for i in range(1, n - p)] + [Fr(n - p)] * (p + 1)
+    if kind == "uniform":
+        return [Fr(i) for i in range(m)]
+    steps = [Fr(1, 4), Fr(1, 2), Fr(1), Fr(1), Fr(2), Fr(1, 3), Fr(3, 2)]
+    if kind == "clamped":
+        inner, v, run = [], Fr(0), 0
+        for _ in range(n - p - 1):
+            if inner and run < p and rng.random() < 0.35:
+                run += 1
+            else:
+                v += rng.choice(steps)
+                run = 1
+            inner.append(v)
+        end = v + rng.choice(steps)
+        return [Fr(0)] * (p + 1) + inner + [end] * (p + 1)
+    # unclamped, non uniform: every value at most p times
+    out, v, run = [Fr(0)], Fr(0), 1
+    while len(out) < m:
+        if run < p and rng.random() < 0.3:
+            run += 1
+        else:
+            v += rng.choice(steps)
+            run = 1
+        out.append(v)
+    return out
+
+
+def sample_params(rng, U, p, count, extra=3):
+    """parameters inside and at both ends of the domain: every distinct knot of the domain, midpoints, random"""
+    lo, hi = U[p], U[count]
+    ks = sorted({k for k in U if lo <= k <= hi})
+    out = list(ks)
+    out += [(a + b) / 2 for a, b in zip(ks, ks[1:])]
+    for _ in range(extra):
+        if hi > lo:
+            out.append(lo + (hi - lo) * Fr(rng.randint(1, 63), 64))
+    return out
+
+
+def gen_spline(rng, pmax=7, rational=None, kinds=KINDS, flat=False):
+    p = rng.randint(1, pmax)
+    n = p + 1 + rng.choice([0, 0, 1, 1, 2, 3, 4, 6])
+    kind = rng.choice(kinds)
+    U = gen_knots(rng, p, n, kind)
+    cps = [gen_point(rng, flat) for _ in range(n)]
+    if rational is None:
+        rational = rng.random() < 0.4
+    w = gen_weights(rng, n) if rational else None
+    return kind, p, U, cps, w
+
+
+def weight_sum(U, p, s, w, u) -> Fr:
+    """exact value of sum_i N_i(u) w_i taken over the polynomial pieces of span s (what span_weighting divides by)"""
+    tot = Fr(0)
+    for i, poly in piece_polys(U, p, s).items():
+        if 0 <= i < len(w):
+            tot += peval(poly, Fr(u)) * w[i]
+    return tot
+
+
+def is_f13(U, p, count, u) -> bool:
+    """shape of finding F13 (fixed by 8d57f80c6): evaluation at the domain end whose knot is repeated to the left.
+    Kept as a separate failure class so that a regression is reported under its own key `F13/...`"""
+    return u >= U[count] and U[count - 1] == U[count]
+
+
+# ====================================================================== correspondence
+NUM = re.compile(r"-?\d+(?:/\d+)?")
+
+
+class Cases:
+    """collects (stream, request, impl response, nontrivial) and compares with the Lean driver in one run.
+    impl response = (skeleton with '#' for every number, [numbers]); numbers are compared with the model's
+    exact rationals: ints exactly, floats within REL_TOL * max(1, |exact|, scale of the line)."""
+
+    def __init__(self, ctx):
+        self.ctx = ctx
+        self.items = []
+
+    def add(self, stream, req, skel, nums=(), nontrivial=True, exact=False, twin=""):
+        self.items.append((stream, req, skel, list(nums), nontrivial, exact, twin))
+
+    def add_exact(self, stream, req, text, nontrivial=True, twin=""):
+        nums = [Fr(x) for x in NUM.findall(text)]
+        self.add(stream, req, NUM.sub("#", text), nums, nontrivial, True, twin)
+
+    def run(self):
+        ctx = self.ctx
+        reqs = list(dict.fromkeys(it[1] for it in self.items))
+        outs = dict(zip(reqs, ctx.driver("C13", reqs, build=DRIVER_DEPS)))
+        for stream, req, skel, nums, nontriv, exact, twin in self.items:
+            model = outs[req]
+            mnums = [Fr(x) for x in NUM.findall(model)]
+            mskel = NUM.sub("#", model)
+            ok = mskel == skel and len(mnums) == len(nums)
+            if ok:
+                if exact:
+                    ok = all(Fr(a) == b for a, b in zip(nums, mnums))
+                else:
+                    scale = max([1.0] + [abs(float(b)) for b in mnums])
+                    ok = all(close(float(a), b, scale) for a, b in zip(nums, mnums))
+            shown = skel
+            for a in nums:
+                shown = shown.replace("#", repr(float(a)) if not exact else str(a), 1)
+            ctx.count(stream, (req, twin), nontriv, sample={"request": req[:300], "impl": f"[{twin}] " + shown[:300], "model": model[:300]})
+            if not ok:
+                ctx.disagree(stream, f"[{twin}] {req}", shown, model)
+        ctx.cov["disagreements_checked"] += len(self.items)
+
+
+def fv(v):
+    return "#:#:#", [float(v[0]), float(v[1]), float(v[2]) if len(v) > 2 else 0.0]
+
+
+def spline_corpus(ctx, salt, n):
+    rng = ctx.rng(salt)
+    out = []
+    # systematic small cases first: every degree 1..7, every kind
+    for p in range(1, 8):
+        for kind in ["clamped-uniform", "clamped", "uniform", "unclamped"]:
+            for extra in (0, 2):
+                nn = p + 1 + extra
+                U = gen_knots(rng, p, nn, kind)
+                out.append((kind, p, U, [gen_point(rng) for _ in range(nn)], gen_weights(rng, nn) if (p + extra) % 3 == 0 else None))
+    # the F13 shape and its neighbours
+    out.append(("unclamped", 2, [Fr(x) for x in (0, 1, 2, 3, 3, 4, 5)], [(Fr(0), Fr(0), Fr(0)), (Fr(1), Fr(2), Fr(0)), (Fr(3), Fr(2), Fr(0)), (Fr(4), Fr(0), Fr(0))], None))
+    out.append(("unclamped", 2, [Fr(x) for x in (0, 1, 2, 3, 4, 4, 5)], [(Fr(0), Fr(0), Fr(0)), (Fr(1), Fr(2), Fr(0)), (Fr(3), Fr(2), Fr(0)), (Fr(4), Fr(0), Fr(0))], None))
+    out.append(("unclamped", 3, [Fr(x) for x in (0, 1, 2, 3, 4, 4, 4, 5, 6)], [gen_point(rng) for _ in range(5)], [Fr(1), Fr(2), Fr(1), Fr(1, 2), Fr(1)]))
+    while len(out) < n:
+        out.append(gen_spline(rng))
+    return out
+
+
+def span_params(rng, U, p, count):
+    us = sorted(set(U))
+    out = list(us) + [(a + b) / 2 for a, b in zip(us, us[1:])]
+    out += [U[0] - 1, U[0] - Fr(1, 8), U[-1] + Fr(1, 8), U[-1] + 3, U[count] + Fr(1, 16), U[p] - Fr(1, 16)]
+    return list(dict.fromkeys(out))
+
+
+def correspond(ctx):
+    C = Cases(ctx)
+    tw = impls(ctx)
+    corpus = spline_corpus(ctx, "corr", ctx.n(400, 4500))
+    rng = ctx.rng("corr-u")
+    for kind, p, U0, cps, w in corpus:
+        order, count = p + 1, len(cps)
+        ctx.hist("X1 find_span", f"{kind}/p={p}")
+        # ---- X1: find_span on the vector as generated, shifted so that knots[p] == 0 (binary search branch)
+        #      and shifted by +1 (linear search branch)
+        for variant, shift in (("as-is", Fr(0)), ("knots[p]=0", -U0[p]), ("shift+1", Fr(1))):
+            U = [k + shift for k in U0]
+            for u in span_params(rng, U, p, count):
+                req = f"span|{order}|{count}|{rs(u)}|{rlist(U)}"
+                for im in tw:
+                    r = im.basis(U, order, count).find_span(float(u))
+                    C.add_exact("X1 find_span", req, str(int(r)), nontrivial=U[0] <= u <= U[-1], twin=im.name)
+        # ---- X2: basis functions and points
+        U = U0
+        dom = sample_params(rng, U, p, count, extra=2)
+        for u in dom + [U[count] + Fr(1, 4), U[p] - Fr(1, 4)]:
+            spans = {ref_span(U, p, count, u)}
+            spans.add(rng.randrange(0, count))
+            if u >= U[count]:
+                spans.add(count - 1)
+            for s in sorted(spans):
+                for ww in ([None, w] if (w and s >= p) else [None]):
+                    if ww and U[s] < U[s + 1] and weight_sum(U, p, s, ww, u) == 0:
+                        # decision band of `if s == 0.0` in span_weighting: exact 0 is a rounding residue in floats
+                        # (only possible outside the span); excluded and counted
+                        ctx.hist("X2 basis/point", "excluded: weight sum exactly 0 outside the span")
+                        continue
+                    req = f"basis|{order}|{s}|{rs(u)}|{rlist(U)}|{rlist(ww) if ww else ''}"
+                    for im in tw:
+                        b = im.basis(U, order, count, ww)
+                        try:
+                            N = b.basis_funcs(s, float(u))
+                            C.add("X2 basis/point", req, "ok " + ",".join("#" * len(N)), [float(x) for x in N],
+                                  nontrivial=True, twin=im.name)
+                        except ZeroDivisionError as e:
+                            C.add("X2 basis/point", req, err_name(e), twin=im.name)
+        for u in dom + [U[count] + Fr(1, 2), U[-1]]:
+            if u < U[p]:
+                continue
+            for ww in ([None, w] if w else [None]):
+                if ww and u > U[count] and U[count - 1] < U[count] and weight_sum(U, p, count - 1, ww, u) == 0:
+                    ctx.hist("X2 basis/point", "excluded: weight sum exactly 0 outside the span")
+                    continue
+                req = f"point|{order}|{rs(u)}|{rlist(U)}|{rlist(ww) if ww else ''}|{vlist(cps)}"
+                for im in tw:
+                    ev = im.evaluator(U, order, cps, ww)
+                    try:
+                        v = ev.point(float(u))
+                        sk, nums = fv(v)
+                        C.add("X2 basis/point", req, "ok " + sk, nums, twin=im.name)
+                    except ZeroDivisionError as e:
+                        C.add("X2 basis/point", req, err_name(e), twin=im.name)
+            # the Lean Cox-de Boor sum (what the theorems talk about) = the referee of the oracle, exactly
+            if U[p] <= u < U[count]:
+                ex = RefCurve(U, order, cps).point(u)
+                C.add_exact("X2 reference", f"ref|{order}|{rs(u)}|{rlist(U)}|{vlist(cps)}", vs(ex), twin="referee")
+        # ---- X4: insert_knot / reverse knots (BSpline level, both twins)
+        if True:
+            ts = [rng.choice(dom) for _ in range(2)] + [U[p] / 2 if U[p] > 0 else Fr(-1), U[-1], U[-1] + 1, Fr(0),
+                                                      (U[count] + U[-1]) / 2, U[count]]
+            if U[p] < U[count]:
+                ts.append(U[p] + (U[count] - U[p]) * Fr(rng.randint(1, 31), 32))
+            for t in dict.fromkeys(ts):
+                req = f"ins|{order}|{rs(t)}|{rlist(U)}|{vlist(cps)}"
+                for im in tw:
+                    with use_twin(im):
+                        from ezdxf.math.bspline import BSpline
+
+                        try:
+                            s2 = BSpline([im.v3(c) for c in cps], order, [float(k) for k in U]).insert_knot(float(t))
+                            ks, pts = list(s2.knots()), list(s2.control_points)
+                            nums = list(ks)
+                            for q in pts:
+                                nums += [q.x, q.y, q.z]
+                            C.add("X4 insert_knot", req, "ok " + ",".join("#" * len(ks)) + "|" + ",".join(["#:#:#"] * len(pts)),
+                                  nums, twin=im.name)
+                        except Exception as e:  # noqa
+                            C.add("X4 insert_knot", req, err_name(e), twin=im.name)
+            for shift in (Fr(0), Fr(3, 2)):
+                from ezdxf.math.bspline import BSpline
+
+                Us = [k + shift for k in U]
+                # BSpline normalises a knot vector that does not start at 0; reverse() normalises again
+                ks = list(BSpline([impls()[0].v3(c) for c in cps], order, [float(k) for k in Us]).reverse().knots())
+                C.add("X4 insert_knot", f"revk|{rlist(Us)}", ",".join("#" * len(ks)), ks, twin="bspline.py")
+    bezier_cases(ctx, C, tw)
+    bulge_cases(ctx, C)
+    C.run()
+
+
+def gen_affine(rng):
+    """12 rationals: linear part (rows of Matrix44, row vector convention) + translation"""
+    kind = rng.choice(["rot", "scale", "shear", "general", "mirror"])
+    c, s = rng.choice([(Fr(3, 5), Fr(4, 5)), (Fr(5, 13), Fr(12, 13)), (Fr(0), Fr(1)), (Fr(-4, 5), Fr(3, 5))])
+    if kind == "rot":
+        lin = [c, s, 0, -s, c, 0, 0, 0, 1]
+    elif kind == "scale":
+        lin = [rng.choice([2, Fr(1, 2), 3]), 0, 0, 0, rng.choice([1, Fr(3, 2), 2]), 0, 0, 0, rng.choice([1, 4])]
+    elif kind == "mirror":
+        lin = [-1, 0, 0, 0, 1, 0, 0, 0, 1]
+    elif kind == "shear":
+        lin = [1, Fr(1, 2), 0, 0, 1, 0, Fr(1, 4), 0, 1]
+    else:
+        lin = [rng.choice(DY[24:41]) for _ in range(9)]
+    tr = [rng.choice(DY), rng.choice(DY), rng.choice(DY)]
+    return [Fr(x) for x in lin + tr]
+
+
+def matrix_of(im: Impl, a):
+    return im.Matrix44([float(a[0]), float(a[1]), float(a[2]), 0.0, float(a[3]), float(a[4]), float(a[5]), 0.0,
+                        float(a[6]), float(a[7]), float(a[8]), 0.0, float(a[9]), float(a[10]), float(a[11]), 1.0])
+
+
+def bezier_cases(ctx, C: Cases, tw):
+    rng = ctx.rng("bezier")
+    ts = [Fr(0), Fr(1), Fr(1, 2), Fr(1, 4), Fr(3, 4), Fr(1, 3), Fr(2, 3), Fr(1, 8), Fr(7, 8), Fr(1, 64), Fr(63, 64)]
+    for i in range(ctx.n(300, 5000)):
+        big = i % 5 == 4
+        flat = i % 3 == 0
+        for deg, tag in ((3, "bez4"), (2, "bez3")):
+            pts = [gen_point(rng, flat, big) for _ in range(deg + 1)]
+            aff = gen_affine(rng)
+            for t in rng.sample(ts, 4) + [Fr(0), Fr(1)]:
+                for im in tw:
+                    cls = im.Bezier4P if deg == 3 else im.Bezier3P
+                    if flat and i % 2 == 0:
+                        curve = cls([im.Vec2(float(p[0]), float(p[1])) for p in pts])
+                    else:
+                        curve = cls([im.v3(p) for p in pts])
+                    for kind, cv, mat in (("eval", curve, ""), ("rev", curve.reverse(), ""),
+                                          ("tr", curve.transform(matrix_of(im, aff)), rlist(aff))):
+                        req = f"{tag}|{im.name}|{kind}|{rs(t)}|{vlist(pts)}|{mat}"
+                        a, na = fv(cv.point(float(t)))
+                        b, nb = fv(cv.tangent(float(t)))
+                        C.add("X3 bezier", req, a + ";" + b, na + nb, nontrivial=0 < t < 1 or kind != "eval", twin=im.name)
+                        ctx.hist("X3 bezier", f"{tag}/{kind}")
+    # out of range parameters raise ValueError in both twins (class behaviour, not part of the kernels)
+    for im in tw:
+        for cls, n in ((im.Bezier4P, 4), (im.Bezier3P, 3)):
+            c = cls([im.v3((Fr(i), Fr(i * i), Fr(0))) for i in range(n)])
+            for t in (-0.25, 1.25):
+                for fn in (c.point, c.tangent):
+                    try:
+                        fn(t)
+                        ctx.disagree("X3 bezier", f"{cls.__name__}.{fn.__name__}({t})", "no exception", "ValueError")
+                    except ValueError:
+                        pass
+
+
+def bulge_cases(ctx, C: Cases):
+    from ezdxf.math import bulge as BU
+
+    rng = ctx.rng("bulge")
+    bs = [Fr(1), Fr(-1), Fr(1, 2), Fr(-1, 2), Fr(2), Fr(-2), Fr(1, 4), Fr(-3), Fr(5), Fr(1, 16), Fr(-1, 16), Fr(3, 4), Fr(-7, 4)]
+    for i in range(ctx.n(1000, 12000)):
+        s = (rng.choice(DY), rng.choice(DY))
+        e = (rng.choice(DY), rng.choice(DY))
+        if s == e:
+            continue
+        b = rng.choice(bs)
+        fs, fe = (float(s[0]), float(s[1])), (float(e[0]), float(e[1]))
+        c = BU.bulge_center(fs, fe, float(b))
+        r = BU.bulge_radius(fs, fe, float(b))
+        c2, a0, a1, r2 = BU.bulge_to_arc(fs, fe, float(b))
+        span = (a1 - a0) % math.tau
+        mid = a0 + span / 2
+        apex = (c2.x + r2 * math.cos(mid), c2.y + r2 * math.sin(mid))
+        sr = BU.signed_bulge_radius((0, 0), (1, 0), float(b))
+        req = f"bulge|{rs(s[0])}|{rs(s[1])}|{rs(e[0])}|{rs(e[1])}|{rs(b)}"
+        C.add("X5 bulge", req, "#:#|#|#:#|#", [c.x, c.y, r * r, apex[0], apex[1], sr], twin="bulge.py")
+        # bulge_to_arc must agree with bulge_center / bulge_radius
+        if not (math.isclose(c.x, c2.x, rel_tol=1e-9, abs_tol=1e-9) and math.isclose(c.y, c2.y, rel_tol=1e-9, abs_tol=1e-9)
+                and math.isclose(r, r2, rel_tol=1e-9)):
+            ctx.disagree("X5 bulge", req, f"bulge_to_arc centre {c2} radius {r2}", f"bulge_center {c} radius {r}")
+        ctx.hist("X5 bulge", "|b|>1" if abs(b) > 1 else ("|b|=1" if abs(b) == 1 else "|b|<1"))
+
+
+# ====================================================================== oracle on the real code
+def _info(kind, p, U, w):
+    return f"{kind}/p={p}/U={rlist(U)}" + ("/rational" if w else "")
+
+
+def _spline_replay(U, p, cps, w):
+    return {"order": p + 1, "knots": [rs(k) for k in U], "cps": [vs(c) for c in cps], "weights": [rs(x) for x in w] if w else None}
+
+
+def make_bspline(U, p, cps, w=None):
+    from ezdxf.math import BSpline, Vec3
+
+    return BSpline([Vec3(float(c[0]), float(c[1]), float(c[2])) for c in cps], p + 1, [float(k) for k in U],
+                   [float(x) for x in w] if w else None)
+
+
+def eval_checked(ctx, tag, stream, spline, ref: RefCurve, us, umap, post, replay, twin="default"):
+    """sample spline.point(umap(u)) and compare with post(ref.point(u)); classify failures"""
+    for u in us:
+        uu = umap(u)
+        ctx.count(stream, (tag, replay.get("id"), str(u)), True)
+        try:
+            import warnings
+
+            with warnings.catch_warnings():
+                warnings.simplefilter("ignore", RuntimeWarning)
+                v = spline.point(float(uu))
+            if any(math.isnan(c) for c in v):
+                # numpy float64 knots (split, degree_elevation) turn 0/0 into NaN instead of ZeroDivisionError
+                raise ZeroDivisionError("NaN result (0/0 on numpy.float64 knots)")
+        except Exception as e:  # noqa
+            Ue = [Fr(k) for k in spline.knots()]
+            if isinstance(e, ZeroDivisionError) and is_f13(Ue, spline.degree, spline.count, Fr(float(uu))):
+                ctx.fail(f"F13/{tag}/{twin}/U={rlist(Ue)}/u={rs(Fr(float(uu)))}",
+                         f"{tag}: evaluation at the domain end u={float(uu)} of knots {list(spline.knots())} raises ZeroDivisionError (empty last span)",
+                         dict(replay, op=tag, u=rs(u)))
+            else:
+                ctx.fail(f"surgery/{tag}/{type(e).__name__}/{replay.get('id')}/u={rs(u)}",
+                         f"{tag}: point({float(uu)}) raised {type(e).__name__}: {e}", dict(replay, op=tag, u=rs(u)))
+            continue
+        ex = post(ref.point(u))
+        scale = max(8.0, max(abs(float(c)) for c in ex))
+        if not vclose(v, ex, scale):
+            ctx.fail(f"surgery/{tag}/mismatch/{replay.get('id')}/u={rs(u)}",
+                     f"{tag}: curve changed at u={float(u)}: got {tuple(v)} expected {[float(c) for c in ex]}",
+                     dict(replay, op=tag, u=rs(u)))
+
+
+def oracle_points(ctx):
+    """O1: BSpline points and derivatives of both twins vs the exact textbook value"""
+    rng = ctx.rng("o1")
+    tw = impls(ctx)
+    for idx, (kind, p, U, cps, w) in enumerate(spline_corpus(ctx, "o1-corpus", ctx.n(600, 7000))):
+        count = len(cps)
+        if not U[p] < U[count]:
+            continue
+        ref = RefCurve(U, p + 1, cps, w)
+        rep = dict(_spline_replay(U, p, cps, w), id=f"o1-{idx}")
+        ctx.hist("O1 points/derivatives", f"{kind}/p={p}" + ("/rational" if w else ""))
+        for im in tw:
+            ev = im.evaluator(U, p + 1, cps, w)
+            for u in sample_params(rng, U, p, count, extra=2):
+                nd = min(p, 3)
+                ctx.count("O1 points/derivatives", (idx, im.name, str(u)), True)
+                try:
+                    pt = ev.point(float(u))
+                    ds = ev.derivative(float(u), nd)
+                except Exception as e:  # noqa
+                    if isinstance(e, ZeroDivisionError) and is_f13(U, p, count, u):
+                        ctx.fail(f"F13/point/{im.name}/U={rlist(U)}/u={rs(u)}",
+                                 f"Evaluator.point({float(u)}) with knots {[float(k) for k in U]} order {p + 1} raises ZeroDivisionError "
+                                 f"({im.name} twin): find_span returns the empty last span at the domain end", dict(rep, op="point", twin=im.name, u=rs(u)))
+                    else:
+                        ctx.fail(f"point/{im.name}/{type(e).__name__}/{_info(kind, p, U, w)}/u={rs(u)}",
+                                 f"point/derivative({float(u)}) raised {type(e).__name__}: {e}", dict(rep, op="point", twin=im.name, u=rs(u)))
+                    continue
+                ex = ref.derivatives(u, nd)
+                if not vclose(pt, ex[0], 8.0):
+                    ctx.fail(f"point/{im.name}/mismatch/{_info(kind, p, U, w)}/u={rs(u)}",
+                             f"point({float(u)}) = {tuple(pt)} but Cox-de Boor gives {[float(c) for c in ex[0]]}",
+                             dict(rep, op="point", twin=im.name, u=rs(u)))
+                for k, (a, b) in enumerate(zip(ds, ex)):
+                    sc = max(8.0, max(abs(float(c)) for c in b))
+                    if not vclose(a, b, sc):
+                        ctx.fail(f"deriv/{im.name}/k={k}/{_info(kind, p, U, w)}/u={rs(u)}",
+                                 f"derivative({float(u)})[{k}] = {tuple(a)} but the exact derivative is {[float(c) for c in b]}",
+                                 dict(rep, op="deriv", twin=im.name, u=rs(u), k=k))
+        # the BSpline front end (basis_vector, params/approximate) on the default twin
+        sp = make_bspline(U, p, cps, w)
+        try:
+            pts = list(sp.approximate(4))
+            lo, hi = U[p], U[count]
+            for i, v in enumerate(pts):
+                ex = ref.point(lo + (hi - lo) * Fr(i, 4))
+                if not vclose(v, ex, 8.0):
+                    ctx.fail(f"point/approximate/mismatch/{_info(kind, p, U, w)}/i={i}", f"approximate(4)[{i}] = {tuple(v)} expected {[float(c) for c in ex]}",
+                             dict(rep, op="approximate"))
+        except ZeroDivisionError:
+            if is_f13(U, p, count, U[count]):
+                ctx.fail(f"F13/approximate/default/U={rlist(U)}", f"BSpline.approximate() raises ZeroDivisionError for knots {[float(k) for k in U]}", dict(rep, op="approximate"))
+            else:
+                ctx.fail(f"point/approximate/ZeroDivisionError/{_info(kind, p, U, w)}", "approximate raised ZeroDivisionError", dict(rep, op="approximate"))
+
+
+def oracle_surgery(ctx):
+    """O2: the curve before and after insert_knot, knot_refinement, transform (any knot vector) and
+    reverse, degree_elevation, split, bezier_decomposition (clamped)"""
+    rng = ctx.rng("o2")
+    tw = impls(ctx)
+    n = ctx.n(500, 6000)
+    for idx in range(n):
+        clamped_only = idx % 2 == 0
+        kind, p, U, cps, w = gen_spline(rng, kinds=["clamped-uniform", "clamped"] if clamped_only else KINDS)
+        count = len(cps)
+        if not U[p] < U[count]:
+            continue
+        im = tw[idx % len(tw)]
+        ref = RefCurve(U, p + 1, cps, w)
+        us = sample_params(rng, U, p, count, extra=2)
+        rep = dict(_spline_replay(U, p, cps, w), id=f"o2-{idx}", twin=im.name)
+        ident = lambda v: v
+        same = lambda u: u
+        lo, hi = U[p], U[count]
+        ctx.hist("O2 surgery", f"{kind}/p={p}" + ("/rational" if w else ""))
+        with use_twin(im):
+            sp = make_bspline(U, p, cps, w)
+            # insert_knot: a new value, and an existing interior knot whose multiplicity stays <= p
+            cands = [lo + (hi - lo) * Fr(rng.randint(1, 31), 32)] + [k for k in dict.fromkeys(U) if lo < k < hi and U.count(k) < p][:2]
+            for t in cands:
+                try:
+                    s2 = sp.insert_knot(float(t))
+                except Exception as e:  # noqa
+                    ctx.fail(f"surgery/insert_knot/{type(e).__name__}/{_info(kind, p, U, w)}/t={rs(t)}", f"insert_knot({float(t)}) raised {type(e).__name__}: {e}", dict(rep, op="insert_knot", t=rs(t)))
+                    continue
+                if s2.count != count + 1 or len(s2.knots()) != len(U) + 1:
+                    ctx.fail(f"surgery/insert_knot/shape/{_info(kind, p, U, w)}/t={rs(t)}", "insert_knot: wrong control point / knot count", dict(rep, op="insert_knot", t=rs(t)))
+                eval_checked(ctx, "insert_knot", "O2 surgery", s2, ref, us, same, ident, dict(rep, t=rs(t)), im.name)
+            ts = sorted(lo + (hi - lo) * Fr(rng.randint(1, 31), 32) for _ in range(3))
+            if p >= 3:
+                ts[1] = ts[0]  # repeated new knot
+            try:
+                s2 = sp.knot_refinement([float(t) for t in ts])
+                eval_checked(ctx, "knot_refinement", "O2 surgery", s2, ref, us, same, ident, dict(rep, t=[rs(t) for t in ts]), im.name)
+            except Exception as e:  # noqa
+                ctx.fail(f"surgery/knot_refinement/{type(e).__name__}/{_info(kind, p, U, w)}", f"knot_refinement({ts}) raised {type(e).__name__}: {e}", dict(rep, op="knot_refinement", t=[rs(t) for t in ts]))
+            aff = gen_affine(rng)
+            from ezdxf.math import Matrix44
+
+            M = matrix_of(tw[-1], aff) if isinstance(tw[-1].Matrix44, type) and tw[-1].Matrix44 is Matrix44 else matrix_of(tw[0], aff)
+            post = lambda v: (v[0] * aff[0] + v[1] * aff[3] + v[2] * aff[6] + aff[9], v[0] * aff[1] + v[1] * aff[4] + v[2] * aff[7] + aff[10],
+                              v[0] * aff[2] + v[1] * aff[5] + v[2] * aff[8] + aff[11])
+            try:
+                s2 = sp.transform(M)
+                eval_checked(ctx, "transform", "O2 surgery", s2, ref, us, same, post, dict(rep, m=[rs(a) for a in aff]), im.name)
+            except Exception as e:  # noqa
+                ctx.fail(f"surgery/transform/{type(e).__name__}/{_info(kind, p, U, w)}", f"transform raised {type(e).__name__}: {e}", dict(rep, op="transform"))
+            if kind.startswith("clamped"):
+                mx = U[-1]
+                try:
+                    s2 = sp.reverse()
+                    eval_checked(ctx, "reverse", "O2 surgery", s2, ref, us, lambda u: 1 - u / mx, ident, rep, im.name)
+                except Exception as e:  # noqa
+                    ctx.fail(f"surgery/reverse/{type(e).__name__}/{_info(kind, p, U, w)}", f"reverse raised {type(e).__name__}: {e}", dict(rep, op="reverse"))
+                for t in (1, 2) if p <= 5 else (1,):
+                    try:
+                        s2 = sp.degree_elevation(t)
+                        if s2.degree != p + t or not s2.is_clamped:
+                            ctx.fail(f"surgery/degree_elevation/shape/{_info(kind, p, U, w)}/t={t}", f"degree_elevation({t}): degree {s2.degree}, clamped {s2.is_clamped}", dict(rep, op="degree_elevation", t=t))
+                        eval_checked(ctx, "degree_elevation", "O2 surgery", s2, ref, us, same, ident, dict(rep, t=t), im.name)
+                    except Exception as e:  # noqa
+                        ctx.fail(f"surgery/degree_elevation/{type(e).__name__}/{_info(kind, p, U, w)}/t={t}", f"degree_elevation({t}) raised {type(e).__name__}: {e}", dict(rep, op="degree_elevation", t=t))
+                # split: inside a span, and exactly at an existing interior knot
+                inner = [k for k in dict.fromkeys(U) if lo < k < hi]
+                for t in [lo + (hi - lo) * Fr(rng.randint(1, 15), 16)] + inner[:1]:
+                    try:
+                        a, b = sp.split(float(t))
+                    except Exception as e:  # noqa
+                        ctx.fail(f"surgery/split/{type(e).__name__}/{_info(kind, p, U, w)}/t={rs(t)}", f"split({float(t)}) raised {type(e).__name__}: {e}", dict(rep, op="split", t=rs(t)))
+                        continue
+                    eval_checked(ctx, "split-first", "O2 surgery", a, ref, [u for u in us if u <= t] + [t], same, ident, dict(rep, t=rs(t)), im.name)
+                    # the second half starts at t != 0: the constructor normalises its knots to [0, 1]
+                    eval_checked(ctx, "split-second", "O2 surgery", b, ref, [u for u in us if u >= t] + [t], lambda u: (u - t) / (mx - t), ident, dict(rep, t=rs(t)), im.name)
+                if not w:
+                    try:
+                        segs = [list(s) for s in sp.bezier_decomposition()]
+                        ks = sorted(set(U))
+                        if len(segs) != len(ks) - 1 or any(len(s) != p + 1 for s in segs):
+                            ctx.fail(f"surgery/bezier_decomposition/shape/{_info(kind, p, U, w)}", f"{len(segs)} segments for {len(ks) - 1} knot spans", dict(rep, op="bezier_decomposition"))
+                        for seg, (a, b) in zip(segs, zip(ks, ks[1:])):
+                            for tt in (Fr(0), Fr(1, 3), Fr(3, 4), Fr(1)):
+                                u = a + (b - a) * tt
+                                pt = bernstein_point([(Fr(q.x), Fr(q.y), Fr(q.z)) for q in seg], tt)
+                                ex = ref.point(u, span=ref_span(U, p, count, a))
+                                ctx.count("O2 surgery", ("decomp", idx, str(u)), True)
+                                if not vclose([float(c) for c in pt], ex, 8.0):
+                                    ctx.fail(f"surgery/bezier_decomposition/mismatch/{_info(kind, p, U, w)}/u={rs(u)}",
+                                             f"Bezier segment over [{a},{b}] at {tt}: {[float(c) for c in pt]} expected {[float(c) for c in ex]}", dict(rep, op="bezier_decomposition"))
+                    except Exception as e:  # noqa
+                        ctx.fail(f"surgery/bezier_decomposition/{type(e).__name__}/{_info(kind, p, U, w)}", f"bezier_decomposition raised {type(e).__name__}: {e}", dict(rep, op="bezier_decomposition"))
+    # a knot vector that does not start at 0 is rescaled by the constructor: same curve, parameter (u - U0)/(Un - U0)
+    for idx in range(ctx.n(60, 600)):
+        kind, p, U, cps, w = gen_spline(rng)
+        if not U[p] < U[len(cps)]:
+            continue
+        sh = Fr(rng.randint(1, 9), 2)
+        ref = RefCurve(U, p + 1, cps, w)
+        sp = make_bspline([k + sh for k in U], p, cps, w)
+        rep = dict(_spline_replay([k + sh for k in U], p, cps, w), id=f"o2-shift-{idx}")
+        # parameters are taken from the spline's own (rounded) knots so that no sample falls 1 ulp outside the domain
+        Uf = [Fr(k) for k in sp.knots()]
+        ufs = sample_params(rng, Uf, p, len(cps), 1)
+        back = {uf * U[-1]: uf for uf in ufs}
+        eval_checked(ctx, "shifted-knots", "O2 surgery", sp, ref, list(back), lambda u: back[u], lambda v: v, rep)
+
+
+def _fit_points(rng, n, flat):
+    from ezdxf.math import Vec3
+
+    pts = []
+    while len(pts) < n:
+        q = Vec3(rng.randint(-20, 20) / 2, rng.randint(-20, 20) / 2, 0 if flat else rng.randint(-6, 6) / 2)
+        # pairwise distinct fit points: a path that returns exactly to an earlier point (A, B, A) has no
+        # defined finite-difference tangent at B and is outside the property's quantifier
+        if all(q.distance(o) > 0.9 for o in pts):
+            pts.append(q)
+    return pts
+
+
+def oracle_interpolation(ctx):
+    """O3: interpolation passes through all fit points with the requested end tangents"""
+    from ezdxf.math import (Vec3, global_bspline_interpolation, local_cubic_bspline_interpolation, fit_points_to_cad_cv,
+                            fit_points_to_cubic_bezier)
+    from ezdxf.math.parametrize import create_t_vector
+
+    rng = ctx.rng("o3")
+    TOL = 1e-6
+
+    def on_knots(s, q):
+        return min(s.point(k).distance(q) for k in set(s.knots())) < TOL * 10
+
+    cases = []
+    for i in range(ctx.n(400, 4000)):
+        cases.append(_fit_points(rng, rng.randint(3, 12), i % 2 == 0))
+    # straight runs (collinear fit points) are ordinary CAD input
+    cases.append([Vec3(x, 0, 0) for x in range(5)])
+    cases.append([Vec3(*p) for p in [(0, 0), (1, 0), (2, 0), (3, 1), (4, 3), (5, 3), (6, 3), (7, 3)]])
+    cases.append([Vec3(*p) for p in [(0, 0), (2, 2), (4, 4), (6, 5), (8, 5), (10, 5), (12, 5)]])
+    cases.append([Vec3(*p) for p in [(-7, 9), (-3.5, 6), (7, -3), (-5, -4)]])  # straight start run, spacing ratio 3
+    cases.append([Vec3(*p) for p in [(0, 0), (3, 1), (4, 3), (5, 3), (8, 3)]])  # straight end run, spacing ratio 3
+    for ci, pts in enumerate(cases):
+        n = len(pts)
+        rep = {"id": f"o3-{ci}", "fit_points": [[p.x, p.y, p.z] for p in pts]}
+        for deg in (2, 3, 4, 5):
+            if n < deg + 1:
+                continue
+            method = rng.choice(["chord", "uniform", "centripetal", "distance", "sqrt_chord"])
+            tv = list(create_t_vector(pts, method))
+            for tang in (None, [Vec3(rng.randint(-4, 4) or 1, rng.randint(-4, 4), 0), Vec3(rng.randint(-4, 4), rng.randint(-4, 4) or 2, 0)]):
+                name = "global-end-tangents" if tang else "global"
+                ctx.count("O3 interpolation", (name, ci, deg, method), True)
+                keyp = f"interp/global-deg2-end-tangents" if (tang and deg == 2) else f"interp/{name}"
+                r2 = dict(rep, op=name, degree=deg, method=method, tangents=[[t.x, t.y, t.z] for t in tang] if tang else None)
+                try:
+                    s = global_bspline_interpolation(pts, deg, tangents=tang, method=method)
+                except Exception as e:  # noqa
+                    ctx.fail(f"{keyp}/{type(e).__name__}/n={n}/deg={deg}/{method}/{ci}", f"global_bspline_interpolation(degree={deg}, {n} fit points, tangents={bool(tang)}, {method}) raised {type(e).__name__}: {e}", r2)
+                    continue
+                miss = max(s.point(t * s.max_t).distance(q) for t, q in zip(tv, pts))
+                if miss > TOL * 10:
+                    ctx.fail(f"{keyp}/miss/n={n}/deg={deg}/{method}/{ci}", f"curve misses a fit point by {miss}", r2)
+                if tang:
+                    d0, d1 = s.derivative(0, 1)[1], s.derivative(s.max_t, 1)[1]
+                    if d0.distance(tang[0]) > TOL * 10 or d1.distance(tang[1]) > TOL * 10:
+                        ctx.fail(f"{keyp}/tangent/n={n}/deg={deg}/{method}/{ci}", f"end derivatives {d0}, {d1} differ from the requested {tang[0]}, {tang[1]}", r2)
+            # one tangent per fit point
+            tg = [Vec3(rng.randint(-3, 3) or 1, rng.randint(-3, 3), 0) for _ in pts]
+            if deg <= 4:
+                ctx.count("O3 interpolation", ("global-all-tangents", ci, deg), True)
+                r2 = dict(rep, op="global-all-tangents", degree=deg, tangents=[[t.x, t.y, t.z] for t in tg])
+                try:
+                    s = global_bspline_interpolation(pts, deg, tangents=tg)
+                    tv2 = list(create_t_vector(pts, "chord"))
+                    if max(s.point(t).distance(q) for t, q in zip(tv2, pts)) > TOL * 10 or max(s.derivative(t, 1)[1].distance(g) for t, g in zip(tv2, tg)) > TOL * 100:
+                        ctx.fail(f"interp/global-all-tangents/miss/n={n}/deg={deg}/{ci}", "curve misses a fit point or a requested derivative", r2)
+                except Exception as e:  # noqa
+                    ctx.fail(f"interp/global-all-tangents/{type(e).__name__}/n={n}/deg={deg}/{ci}", f"raised {type(e).__name__}: {e}", r2)
+        for method in ("3-points", "5-points", "bezier", "diff"):
+            ctx.count("O3 interpolation", ("local", ci, method), True)
+            r2 = dict(rep, op="local", method=method)
+            try:
+                s = local_cubic_bspline_interpolation(pts, method=method)
+                if not all(on_knots(s, q) for q in pts):
+                    ctx.fail(f"interp/local/{method}/miss/n={n}/{ci}", "local cubic interpolation misses a fit point", r2)
+            except Exception as e:  # noqa
+                key = f"interp/local/{method}/{type(e).__name__}/n={n}/{ci}"
+                if method == "5-points" and isinstance(e, ZeroDivisionError):
+                    from ezdxf.math.parametrize import tangents_5_point_interpolation
+
+                    q = [b - a for a, b in zip(pts, pts[1:])]
+                    if any(q[i].cross(q[i + 1]).magnitude == 0 for i in range(len(q) - 1)):
+                        try:
+                            raw = tangents_5_point_interpolation(list(pts), normalize=False)
+                            if any(v.is_null for v in raw):
+                                # residual of C13-3: blended tangent is the null vector (collinear run, unequal spacing)
+                                key = f"interp/local-5-points-zero-tangent/n={n}/{ci}"
+                        except ZeroDivisionError:
+                            key = f"interp/local-5-points-collinear/n={n}/{ci}"  # regression of fix 52828bf44
+                ctx.fail(key, f"local_cubic_bspline_interpolation({n} fit points, method={method!r}) raised {type(e).__name__}: {e}", r2)
+        tv = list(create_t_vector(pts, "chord"))
+        for tang in (None, [Vec3(1, 2, 0), Vec3(-1, 1, 0)]):
+            ctx.count("O3 interpolation", ("cad_cv", ci, bool(tang)), True)
+            r2 = dict(rep, op="cad_cv", tangents=bool(tang))
+            try:
+                s = fit_points_to_cad_cv(pts, tangents=tang)
+                miss = max(s.point(t).distance(q) for t, q in zip(tv, pts))
+                if miss > TOL * 10:
+                    ctx.fail(f"interp/cad_cv/miss/n={n}/{ci}", f"fit_points_to_cad_cv misses a fit point by {miss}", r2)
+                if tang:
+                    a, b = s.derivative(0, 1)[1], s.derivative(1, 1)[1]
+                    if a.normalize().distance(tang[0].normalize()) > TOL or b.normalize().distance(tang[1].normalize()) > TOL:
+                        ctx.fail(f"interp/cad_cv/tangent/n={n}/{ci}", "end tangent direction differs from the requested one", r2)
+                else:
+                    if s.derivative(0, 2)[2].magnitude > TOL * 100 or s.derivative(1, 2)[2].magnitude > TOL * 100:
+                        ctx.fail(f"interp/cad_cv/natural-end/n={n}/{ci}", "second derivative at the ends is not zero", r2)
+            except Exception as e:  # noqa
+                ctx.fail(f"interp/cad_cv/{type(e).__name__}/n={n}/{ci}", f"fit_points_to_cad_cv raised {type(e).__name__}: {e}", r2)
+        ctx.count("O3 interpolation", ("cubic_bezier", ci), True)
+        try:
+            s = fit_points_to_cubic_bezier(pts)
+            if not all(on_knots(s, q) for q in pts):
+                ctx.fail(f"interp/cubic_bezier/miss/n={n}/{ci}", "fit_points_to_cubic_bezier misses a fit point", dict(rep, op="cubic_bezier"))
+        except Exception as e:  # noqa
+            ctx.fail(f"interp/cubic_bezier/{type(e).__name__}/n={n}/{ci}", f"raised {type(e).__name__}: {e}", dict(rep, op="cubic_bezier"))
+
+
+def oracle_conics(ctx):
+    """O4: rational B-splines built from arcs and ellipses lie on them; O5: conversions are mutually inverse"""
+    from ezdxf.math import (Vec3, Vec2, rational_bspline_from_arc, rational_bspline_from_ellipse, ConstructionEllipse,
+                            bulge_to_arc, arc_to_bulge, bulge_3_points, arc_angle_span_deg, BSpline, ConstructionArc)
+    from ezdxf.math.ellipse import angle_to_param, param_to_angle, rytz_axis_construction
+    from ezdxf.math.bulge import bulge_from_arc_angle, bulge_from_radius_and_chord
+
+    rng = ctx.rng("o4")
+    angles = [0, 30, 45, 90, 135, 180, 225, 270, 315, 360, -90, 450, 12.5, 359.999, 0.001, 720, 179.999, 180.001]
+    for a0 in angles:
+        for a1 in angles:
+            for seg in (1, 2, 5) if ctx.quick else (1, 2, 3, 5, 8):
+                c = Vec3(rng.randint(-5, 5), rng.randint(-5, 5), 0)
+                r = rng.choice([0.5, 1, 3, 10, 1000])
+                ctx.count("O4 conics", ("arc", a0, a1, seg), True)
+                rep = {"op": "arc", "center": [c.x, c.y], "radius": r, "start": a0, "end": a1, "segments": seg}
+                try:
+                    s = rational_bspline_from_arc(c, r, a0, a1, segments=seg)
+                    span = arc_angle_span_deg(a0, a1)
+                    dev = max(abs(s.point(s.max_t * i / 16).distance(c) - r) for i in range(17))
+                    e0, e1 = c + Vec3.from_deg_angle(a0, r), c + Vec3.from_deg_angle(a0 + span, r)
+                    if dev > 1e-9 * max(1, r) or s.point(0).distance(e0) > 1e-8 * max(1, r) or s.point(s.max_t).distance(e1) > 1e-8 * max(1, r):
+                        ctx.fail(f"conic/arc/off/{a0}/{a1}/{seg}", f"rational_bspline_from_arc({a0},{a1},segments={seg}) leaves the circle by {dev}", rep)
+                    # angular position stays inside the arc and is monotone
+                    if span > 0:
+                        prev = -1e-9
+                        for i in range(1, 16):
+                            ang = ((s.point(s.max_t * i / 16) - c).angle_deg - a0) % 360
+                            if ang < prev - 1e-6 or ang > span + 1e-6:
+                                ctx.fail(f"conic/arc/range/{a0}/{a1}/{seg}", f"sample {i} at angle {ang} outside the span {span} or not monotone", rep)
+                                break
+                            prev = ang
+                except Exception as e:  # noqa
+                    ctx.fail(f"conic/arc/{type(e).__name__}/{a0}/{a1}/{seg}", f"rational_bspline_from_arc raised {type(e).__name__}: {e}", rep)
+    params = [0, math.pi / 6, math.pi / 2, math.pi, 3 * math.pi / 2, math.tau, 1.0, 5.5, -1.0, 7.0]
+    for p0 in params:
+        for p1 in params:
+            for ratio in (1.0, 0.5, 0.1, 1e-3):
+                for seg in (1, 3):
+                    c = Vec3(rng.randint(-5, 5), rng.randint(-5, 5), rng.randint(-2, 2))
+                    major = Vec3(rng.choice([1, 3, -2]), rng.choice([0, 2, -1]), 0)
+                    ext = Vec3(0, 0, rng.choice([1, -1]))
+                    ctx.count("O4 conics", ("ellipse", p0, p1, ratio, seg), True)
+                    rep = {"op": "ellipse", "center": list(c), "major": list(major), "ext": list(ext), "ratio": ratio, "p0": p0, "p1": p1, "segments": seg}
+                    try:
+                        e = ConstructionEllipse(c, major, ext, ratio, p0, p1)
+                        s = rational_bspline_from_ellipse(e, segments=seg)
+                        a = major.magnitude
+                        ux, uy = major.normalize(), e.minor_axis.normalize()
+                        dev = 0.0
+                        for i in range(17):
+                            q = s.point(s.max_t * i / 16) - c
+                            dev = max(dev, abs((q.dot(ux) / a) ** 2 + (q.dot(uy) / (a * ratio)) ** 2 - 1), abs(q.dot(e.extrusion.normalize())))
+                        if dev > 1e-9 or s.point(0).distance(e.start_point) > 1e-8 * a or s.point(s.max_t).distance(e.end_point) > 1e-8 * a:
+                            ctx.fail(f"conic/ellipse/off/{p0:.3f}/{p1:.3f}/{ratio}/{seg}", f"rational_bspline_from_ellipse leaves the ellipse by {dev}", rep)
+                    except Exception as ex:  # noqa
+                        ctx.fail(f"conic/ellipse/{type(ex).__name__}/{p0:.3f}/{p1:.3f}/{ratio}/{seg}", f"raised {type(ex).__name__}: {ex}", rep)
+    # ---- O5 round trips
+    def angdiff(a, b):
+        return abs((a - b + math.pi) % math.tau - math.pi)
+
+    for ratio in (1.0, 0.5, 0.1, 1e-3, 0.75):
+        for i in range(-40, 80):
+            a = i * math.pi / 20 + 0.01 * (i % 3)
+            ctx.count("O5 round trips", ("angle-param", ratio, i), True)
+            if angdiff(param_to_angle(ratio, angle_to_param(ratio, a)), a) > 1e-9 or angdiff(angle_to_param(ratio, param_to_angle(ratio, a)), a) > 1e-9:
+                ctx.fail(f"roundtrip/angle-param/{ratio}/{i}", f"angle_to_param/param_to_angle are not inverse at {a} ratio {ratio}", {"op": "angle-param", "ratio": ratio, "a": a})
+    bs = [1, -1, 0.5, -0.5, 2, -2, 0.25, -3, 5, 0.0625, -0.0625, 10, -0.01, 1e-4, -40]
+    for i in range(ctx.n(1500, 15000)):
+        s = Vec2(rng.randint(-20, 20) / 4, rng.randint(-20, 20) / 4)
+        e = Vec2(rng.randint(-20, 20) / 4, rng.randint(-20, 20) / 4)
+        if s.distance(e) < 0.2:
+            continue
+        b = rng.choice(bs)
+        ctx.count("O5 round trips", ("bulge", i), True)
+        rep = {"op": "bulge", "s": list(s), "e": list(e), "b": b}
+        try:
+            c, a0, a1, r = bulge_to_arc(s, e, b)
+            s2, e2, b2 = arc_to_bulge(c, a0, a1, r)
+            if b < 0:  # documented: the returned arc is counter clockwise, start and end swapped
+                s2, e2, b2 = e2, s2, -b2
+            tol = 1e-9 * max(1.0, r)
+            span = (a1 - a0) % math.tau
+            apex = c + Vec2.from_angle(a0 + span / 2, r)
+            ok = s2.distance(s) <= tol and e2.distance(e) <= tol and abs(b2 - b) <= 1e-9 * max(1, abs(b)) * 10
+            ok = ok and abs(bulge_3_points(s, e, apex) - b) <= 1e-8 * max(1, abs(b))
+            ok = ok and abs(bulge_from_arc_angle(span) - abs(b)) <= 1e-8 * max(1, abs(b))
+            if abs(b) <= 1:
+                ok = ok and abs(bulge_from_radius_and_chord(r, s.distance(e)) - abs(b)) <= 1e-6
+            if not ok:
+                ctx.fail(f"roundtrip/bulge/{b}/{i}", f"bulge {b} from {s} to {e}: arc/bulge conversions are not inverse", rep)
+        except Exception as ex:  # noqa
+            ctx.fail(f"roundtrip/bulge/{type(ex).__name__}/{b}/{i}", f"raised {type(ex).__name__}: {ex}", rep)
+    for i in range(ctx.n(300, 3000)):
+        a = rng.choice([1, 2, 5])
+        ratio = rng.choice([0.9, 0.5, 0.1])
+        rot, t = rng.random() * math.tau, rng.random() * math.tau
+        ux, uy = Vec3.from_angle(rot), Vec3.from_angle(rot + math.pi / 2)
+        d1 = ux * (a * math.cos(t)) + uy * (a * ratio * math.sin(t))
+        d2 = ux * (-a * math.sin(t)) + uy * (a * ratio * math.cos(t))
+        ctx.count("O5 round trips", ("rytz", i), True)
+        if min(abs(math.sin(t)), abs(math.cos(t))) < 1e-3:
+            continue
+        try:
+            mj, mn, rr = rytz_axis_construction(d1, d2)
+            if abs(mj.magnitude - a) > 1e-6 or abs(rr - ratio) > 1e-6 or abs(abs(mj.normalize().dot(ux)) - 1) > 1e-6 or abs(mj.dot(mn)) > 1e-6:
+                ctx.fail(f"roundtrip/rytz/{a}/{ratio}/{i}", f"rytz_axis_construction does not recover the axes (a={a}, ratio={ratio}, t={t})", {"op": "rytz", "a": a, "ratio": ratio, "rot": rot, "t": t})
+        except Exception as ex:  # noqa
+            ctx.fail(f"roundtrip/rytz/{type(ex).__name__}/{i}", f"raised {type(ex).__name__}: {ex}", {"op": "rytz", "a": a, "ratio": ratio, "rot": rot, "t": t})
+
+
+def oracle_bezier(ctx):
+    """O6: Bezier4P / Bezier3P of both twins vs de Casteljau and the exact derivative (Fractions)"""
+    rng = ctx.rng("o6")
+    tw = impls(ctx)
+    ts = [Fr(0), Fr(1), Fr(1, 2), Fr(1, 4), Fr(3, 4), Fr(1, 3), Fr(2, 3), Fr(1, 8), Fr(7, 8), Fr(1, 64), Fr(63, 64), Fr(5, 16)]
+    for i in range(ctx.n(400, 6000)):
+        for deg in (3, 2):
+            pts = [gen_point(rng, i % 3 == 0, i % 5 == 4) for _ in range(deg + 1)]
+            aff = gen_affine(rng)
+            hod = [tuple(deg * (b - a) for a, b in zip(p, q)) for p, q in zip(pts, pts[1:])]  # hodograph
+            scale = max(8.0, max(abs(float(c)) for p in pts for c in p))
+            for im in tw:
+                cls = im.Bezier4P if deg == 3 else im.Bezier3P
+                curve = cls([im.v3(p) for p in pts])
+                M = matrix_of(im, aff)
+                tr = lambda v: (v[0] * aff[0] + v[1] * aff[3] + v[2] * aff[6] + aff[9], v[0] * aff[1] + v[1] * aff[4] + v[2] * aff[7] + aff[10],
+                                v[0] * aff[2] + v[1] * aff[5] + v[2] * aff[8] + aff[11])
+                for t in rng.sample(ts, 5):
+                    ctx.count("O6 bezier", (i, deg, im.name, str(t)), 0 < t < 1)
+                    rep = {"op": "bezier", "twin": im.name, "points": [vs(p) for p in pts], "t": rs(t), "m": [rs(a) for a in aff]}
+                    checks = [("point", curve.point(float(t)), bernstein_point(pts, t), scale),
+                              ("tangent", curve.tangent(float(t)), bernstein_point(hod, t), 3 * scale),
+                              ("reverse", curve.reverse().point(float(t)), bernstein_point(pts, 1 - t), scale),
+                              ("transform", curve.transform(M).point(float(t)), tr(bernstein_point(pts, t)), 40 * scale)]
+                    for name, got, ex, sc in checks:
+                        if not vclose(got, ex, sc):
+                            ctx.fail(f"bezier/{name}/{im.name}/deg={deg}/{i}/t={rs(t)}",
+                                     f"Bezier{deg + 1}P.{name}({float(t)}) = {tuple(got)} but the Bernstein form gives {[float(c) for c in ex]} ({im.name} twin)", dict(rep, kind=name))
+                cp = curve.control_points
+                if not all(vclose(a, b, scale) for a, b in zip(cp, pts)):
+                    ctx.fail(f"bezier/control_points/{im.name}/deg={deg}/{i}", "control_points does not return the defining points", {"op": "bezier", "points": [vs(p) for p in pts]})
+
+
+def oracle(ctx):
+    import warnings
+
+    with warnings.catch_warnings():
+        warnings.simplefilter("ignore", RuntimeWarning)  # numpy: 0/0 on float64 knots (classified as F13 by the checks)
+        oracle_points(ctx)
+        oracle_surgery(ctx)
+        oracle_interpolation(ctx)
+        oracle_conics(ctx)
+        oracle_bezier(ctx)
+
+
+# ====================================================================== replay
+def _replay_one(r) -> str | None:
+    """re-evaluate one recorded failing input on the current code; returns a message if it still fails"""
+    from ezdxf.math import Vec3
+
+    op = r.get("op")
+    if "knots" in r:
+        U = [Fr(k) for k in r["knots"]]
+        p = r["order"] - 1
+        cps = [parse_v(c) for c in r["cps"]]
+        w = [Fr(x) for x in r["weights"]] if r.get("weights") else None
+        ref = RefCurve(U, p + 1, cps, w)
+        twins = [im for im in impls() if im.name == r.get("twin")] or impls()[-1:]
+        if op in ("point", "deriv"):
+            u = Fr(r["u"])
+            ev = twins[0].evaluator(U, p + 1, cps, w)
+            nd = min(p, 3)
+            ds = ev.derivative(float(u), nd)
+            ex = ref.derivatives(u, nd)
+            for a, b in zip([ev.point(float(u))] + list(ds), [ex[0]] + list(ex)):
+                if not vclose(a, b, max(8.0, max(abs(float(c)) for c in b))):
+                    return f"value {tuple(a)} expected {[float(c) for c in b]}"
+            return None
+        with use_twin(twins[0]):
+            sp = make_bspline(U, p, cps, w)
+            if op == "approximate":
+                list(sp.approximate(4))
+                return None
+            u = Fr(r["u"]) if "u" in r else None
+            mx = U[-1]
+            if op == "insert_knot":
+                s2, um = sp.insert_knot(float(Fr(r["t"]))), u
+            elif op == "knot_refinement":
+                s2, um = sp.knot_refinement([float(Fr(t)) for t in r["t"]]), u
+            elif op == "reverse":
+                s2, um = sp.reverse(), 1 - u / mx
+            elif op == "degree_elevation":
+                s2, um = sp.degree_elevation(int(r["t"])), u
+            elif op == "split-first":
+                s2, um = sp.split(float(Fr(r["t"])))[0], u
+            elif op == "split-second":
+                t = Fr(r["t"])
+                s2, um = sp.split(float(t))[1], (u - t) / (mx - t)
+            elif op == "shifted-knots":
+                U0 = [k - U[0] for k in U]
+                ref = RefCurve(U0, p + 1, cps, w)
+                s2, um = sp, u / U0[-1]
+            elif op == "transform":
+                aff = [Fr(a) for a in r["m"]]
+                s2 = sp.transform(matrix_of(impls()[-1], aff))
+                v = s2.point(float(u))
+                e = ref.point(u)
+                ex = (e[0] * aff[0] + e[1] * aff[3] + e[2] * aff[6] + aff[9], e[0] * aff[1] + e[1] * aff[4] + e[2] * aff[7] + aff[10],
+                      e[0] * aff[2] + e[1] * aff[5] + e[2] * aff[8] + aff[11])
+                return None if vclose(v, ex, max(8.0, max(abs(float(c)) for c in ex))) else f"value {tuple(v)} expected {[float(c) for c in ex]}"
+            elif op == "bezier_decomposition":
+                list(sp.bezier_decomposition())
+                return None
+            else:
+                return f"unknown op {op}"
+            if u is None:
+                return None
+            v = s2.point(float(um))
+            if any(math.isnan(c) for c in v):
+                return "NaN"
+            ex = ref.point(u)
+            return None if vclose(v, ex, max(8.0, max(abs(float(c)) for c in ex))) else f"value {tuple(v)} expected {[float(c) for c in ex]}"
+    if "fit_points" in r:
+        from ezdxf.math import global_bspline_interpolation, local_cubic_bspline_interpolation, fit_points_to_cad_cv, fit_points_to_cubic_bezier
+        from ezdxf.math.parametrize import create_t_vector
+
+        pts = [Vec3(p) for p in r["fit_points"]]
+        if op in ("global", "global-end-tangents", "global-all-tangents"):
+            tg = [Vec3(t) for t in r["tangents"]] if r.get("tangents") else None
+            method = r.get("method", "chord")
+            s = global_bspline_interpolation(pts, r["degree"], tangents=tg, method=method)
+            tv = list(create_t_vector(pts, method))
+            if max(s.point(t * s.max_t).distance(q) for t, q in zip(tv, pts)) > 1e-5:
+                return "misses a fit point"
+            if tg and len(tg) == 2 and (s.derivative(0, 1)[1].distance(tg[0]) > 1e-5 or s.derivative(s.max_t, 1)[1].distance(tg[1]) > 1e-5):
+                return "end tangents not met"
+            return None
+        if op == "local":
+            local_cubic_bspline_interpolation(pts, method=r["method"])
+            return None
+        if op == "cad_cv":
+            fit_points_to_cad_cv(pts, tangents=[Vec3(1, 2, 0), Vec3(-1, 1, 0)] if r.get("tangents") else None)
+            return None
+        if op == "cubic_bezier":
+            fit_points_to_cubic_bezier(pts)
+            return None
+    if op == "bezier":
+        pts = [parse_v(c) for c in r["points"]]
+        t = Fr(r["t"])
+        deg = len(pts) - 1
+        im = ([i for i in impls() if i.name == r.get("twin")] or impls()[-1:])[0]
+        curve = (im.Bezier4P if deg == 3 else im.Bezier3P)([im.v3(p) for p in pts])
+        scale = max(8.0, max(abs(float(c)) for p in pts for c in p))
+        hod = [tuple(deg * (b - a) for a, b in zip(p, q)) for p, q in zip(pts, pts[1:])]
+        if not vclose(curve.point(float(t)), bernstein_point(pts, t), scale):
+            return "point differs from the Bernstein form"
+        if not vclose(curve.tangent(float(t)), bernstein_point(hod, t), 3 * scale):
+            return "tangent differs from the derivative"
+        if not vclose(curve.reverse().point(float(t)), bernstein_point(pts, 1 - t), scale):
+            return "reverse differs"
+        return None
+    return f"replay of op {op!r} is not supported: rerun ./check C13"
+
+
+def replay(ctx, rep):
+    bad = []
+    for f in rep.get("failing_inputs", []):
+        try:
+            msg = _replay_one(f["replay"])
+        except Exception as e:  # noqa
+            msg = f"{type(e).__name__}: {e}"
+        if msg:
+            bad.append(f"{f['key']}: {msg}")
+    for b in rep.get("broken", []):
+        bad.append(f"broken {b.get('kind')} {b.get('name')}: rerun ./check C13")
+    return (not bad, "; ".join(bad)[:2000] or "all recorded failing inputs pass now")
